@@ -585,6 +585,8 @@ func c10checkedIn(c *core.Check, rel, file string) {
 
 // ---- required-field bitset pairing in genFastRead
 func c10bitset(c *core.Check) {
+	c10visitsAll(c)
+	c10elemTypes(c)
 	fd := c.Prog.FuncDecl(fastgoRel, "FastGoBackend.genFastRead")
 	key := fastgoRel + ".(FastGoBackend).genFastRead"
 	if fd == nil {
